@@ -182,6 +182,11 @@ def decide(assertions, timeout_ms, order=None):
     budget = timeout_ms
     s = z3.Solver()
     s.add(assertions)
+    if os.environ.get("PQVERIF_DUMP"):
+        import hashlib
+        txt = s.to_smt2()
+        with open(os.path.join(os.environ["PQVERIF_DUMP"], hashlib.sha1(txt.encode()).hexdigest()[:12] + ".smt2"), "w") as f:
+            f.write(txt)
     share = {"nlsat0": 0.04, "nla": 0.12, "nlsat": 0.5, "cvc5": 0.34}
     for eng in order:
         tmo = max(int(budget * share[eng]), 1500)
